@@ -72,9 +72,14 @@ func runSolver(ctx context.Context, sp solverSpec, path string, timeoutS int) So
 	cmd.Stderr = &out
 	_ = cmd.Run()
 	res := SolveResult{Solver: sp.name, TimeS: time.Since(start).Seconds(), Output: out.String()}
-	first := strings.TrimSpace(out.String())
-	if i := strings.IndexByte(first, '\n'); i >= 0 {
-		first = strings.TrimSpace(first[:i])
+	first := ""
+	for _, l := range strings.Split(out.String(), "\n") {
+		l = strings.TrimSpace(l)
+		if l == "" || strings.HasPrefix(l, "WARNING") {
+			continue
+		}
+		first = l
+		break
 	}
 	switch first {
 	case "unsat", "sat", "unknown":
